@@ -4,7 +4,7 @@ import math
 from hypothesis import strategies as st
 
 from vf.evidence import Outcome
-from vf.world import World, Violation, settle
+from vf.world import World, Violation, settle, advance
 
 from scales.constants import MessageProperties, SinkProperties
 from scales.dispatch import MessageDispatcher
@@ -20,8 +20,8 @@ LEVEL = 'exploration'
 RULE = ('Hypothesis-generated update sequences (<= 60 updates) over 1-3 services x 0-3 methods x 0-3 endpoints x '
         '0-2 client ids: counter / rate / aggregate-timer increments, gauge sets, percentile samples, every update '
         'through a freshly constructed Source (instance metric objects and the static class-level form); sample '
-        'streams of 1-2500 finite floats for a single source; plus N calls through a real MessageDispatcher on a stub '
-        'sink that stamps endpoints. Oracle: dictionary model keyed by the field tuple. Non-trivial = at least two '
+        'streams of 1-2500 finite floats for a single source, recorded at one instant or spread over 400-900 virtual seconds and aggregated right after the last sample; plus N calls through two real MessageDispatchers with different names (same methods, same endpoints) on stub '
+        'sinks that stamp endpoints. Oracle: dictionary model keyed by the field tuple. Non-trivial = at least two '
         'updates from equal-but-distinct Source objects to one metric. distinct = distinct non-trivial plans.')
 ASSUMPTIONS = [
     'gauges and percentile streams use one field tuple per (service, client id) key, as the property states ("a single source")',
@@ -59,13 +59,14 @@ def strategy(tier):
       'v': st.one_of(st.integers(-5, 50), st.floats(-1e9, 1e9, allow_nan=False, allow_infinity=False)),
       'static': st.booleans(),
   })
-  call = st.fixed_dictionaries({'m': st.integers(1, 3), 'e': st.integers(1, 3), 'ok': st.booleans()})
+  call = st.fixed_dictionaries({'m': st.integers(1, 3), 'e': st.integers(1, 3), 'ok': st.booleans(), 'd': st.integers(0, 1)})
   return st.fixed_dictionaries({
       'seed': st.integers(0, 2 ** 16),
       'updates': st.lists(upd, max_size=60),
       'stream': st.one_of(
           st.lists(st.floats(-1e9, 1e9, allow_nan=False, allow_infinity=False), min_size=0, max_size=40),
-          st.tuples(st.integers(1, 2500), st.integers(0, 2 ** 16)).map(lambda t: {'n': t[0], 'seed': t[1]})),
+          st.tuples(st.integers(1, 2500), st.integers(0, 2 ** 16), st.sampled_from([[-1e3, 1e6], [10, 100], [5e5, 1e6]]),
+                    st.sampled_from([0, 0, 400, 900])).map(lambda t: {'n': t[0], 'seed': t[1], 'range': t[2], 'span_s': t[3]})),
       'calls': st.lists(call, max_size=30),
   })
 
@@ -161,12 +162,18 @@ def execute(plan):
 
     # single-source sample stream
     stream = plan['stream']
+    span = 0
     if isinstance(stream, dict):
       import random as _r
       rnd = _r.Random(stream['seed'])
-      stream = [rnd.uniform(-1e3, 1e6) for _ in range(stream['n'])]
+      lo_, hi_ = stream.get('range', [-1e3, 1e6])
+      span = stream.get('span_s', 0)
+      stream = [rnd.uniform(lo_, hi_) for _ in range(stream['n'])]
     s_src = lambda: Source(method=fresh('mm'), service=fresh('stream'), endpoint=fresh('e:1'), client_id=None)
-    for x in stream:
+    chunk = max(1, len(stream) // 10)
+    for j, x in enumerate(stream):
+      if span and j and j % chunk == 0:
+        advance(span / 10.0)       # a source that keeps recording over minutes; aggregated right after its last sample
       TV(s_src()).t(x)
 
     agg = VarzAggregator.Aggregate(data, VarzReceiver.VARZ_METRICS)
@@ -221,37 +228,48 @@ def execute(plan):
       if len(stream) <= 1000 and sorted(res[0].data) != sorted(stream):
         raise Violation(ID, 'samples-lost', 'reservoir holds %d of %d samples' % (len(res[0].data), len(stream)))
 
-    # end to end through a real dispatcher
+    # end to end through real dispatchers: two clients with different names in one process, same methods and endpoints
     calls = plan['calls']
     if calls:
-      sink = _StubSink(calls)
-      disp = MessageDispatcher(object, _StubProvider(sink), 10, {SinkProperties.Label: 'e2e'})
-      disp.Open()
+      names = ['e2e', 'e2e-b']
+      per = [[c for c in calls if c.get('d', 0) == d] for d in (0, 1)]
+      disps = []
+      for d in (0, 1):
+        sink = _StubSink(per[d])
+        disp = MessageDispatcher(object, _StubProvider(sink), 10, {SinkProperties.Label: names[d]})
+        disp.Open()
+        disps.append(disp)
       ars = []
       for c in calls:
-        ars.append(disp.DispatchMethodCall(fresh(METHODS[c['m']]), (), {}))
+        ars.append(disps[c.get('d', 0)].DispatchMethodCall(fresh(METHODS[c['m']]), (), {}))
         settle()
       if not all(a.ready() for a in ars):
         raise Violation(ID, 'e2e-incomplete', 'stub calls did not complete')
       agg = VarzAggregator.Aggregate(data, VarzReceiver.VARZ_METRICS)
       base = 'scales.MessageDispatcher.'
-      want = {'dispatch_messages': len(calls),
-              'success_messages': len([c for c in calls if c['ok']]),
-              'exception_messages': len([c for c in calls if not c['ok']])}
-      for name, w in want.items():
-        got = agg[base + name].get(('e2e', None))
-        g = 0 if got is None else got.total
-        if g != w:
-          raise Violation(ID, 'sum-mismatch', '%s: aggregate %r after %d calls, expected %d' % (base + name, g, len(calls), w))
-      combos = set((c['m'], c['e']) for c in calls)
-      for name, bound in (('success_messages', len(set((c['m'], c['e']) for c in calls if c['ok']))),
-                          ('exception_messages', len(set((c['m'], c['e']) for c in calls if not c['ok']))),
-                          ('request_latency', len(combos)),
-                          ('dispatch_messages', len(set(c['m'] for c in calls)))):
-        n_series = len([s for s in data[base + name] if s.service == 'e2e'])
-        if n_series > bound:
-          raise Violation(ID, 'series-split', '%s has %d series after %d calls over %d distinct sources' % (
-              base + name, n_series, len(calls), bound))
+      for d in (0, 1):
+        mine = per[d]
+        want = {'dispatch_messages': len(mine),
+                'success_messages': len([c for c in mine if c['ok']]),
+                'exception_messages': len([c for c in mine if not c['ok']])}
+        for name, w in want.items():
+          got = agg[base + name].get((names[d], None))
+          g = 0 if got is None else got.total
+          if g != w:
+            raise Violation(ID, 'sum-mismatch', '%s for client %r: aggregate %r after %d calls (%d by the other client), expected %d' % (
+                base + name, names[d], g, len(mine), len(calls) - len(mine), w))
+        combos = set((c['m'], c['e']) for c in mine)
+        for name, bound in (('success_messages', len(set((c['m'], c['e']) for c in mine if c['ok']))),
+                            ('exception_messages', len(set((c['m'], c['e']) for c in mine if not c['ok']))),
+                            ('request_latency', len(combos)),
+                            ('dispatch_messages', len(set(c['m'] for c in mine)))):
+          n_series = len([s_ for s_ in data[base + name] if s_.service == names[d]])
+          if n_series > bound:
+            raise Violation(ID, 'series-split', '%s has %d series after %d calls over %d distinct sources' % (
+                base + name, n_series, len(mine), bound))
+          if name == 'request_latency' and n_series < bound:
+            raise Violation(ID, 'series-merged', '%s has %d series for client %r, which used %d distinct (method, endpoint) pairs' % (
+                base + name, n_series, names[d], bound))
 
   dup = any(n >= 2 for n in per_tuple_updates.values()) or len(stream) >= 2
   nt = None
@@ -262,4 +280,8 @@ def execute(plan):
     classes.append('stream>1000')
   if calls:
     classes.append('e2e')
+    if len(set(c.get('d', 0) for c in calls)) == 2:
+      classes.append('e2e_two_clients')
+  if span:
+    classes.append('stream_over_minutes')
   return Outcome(nontrivial=nt, classes=classes)
